@@ -83,6 +83,8 @@ type FuncContract struct {
 	CoreTypes   bool // treat type parameters constrained to ~T0 as T0
 	Appends     *AppendSpec
 	SplitReturns bool // exit obligations per return site
+	PureCallbacks map[string]bool // callback parameters assumed to have no effect on the heap
+	Bounded map[string]Clause // ensures label -> bound under which it is checked (a bounded stand-in, not a proof)
 	IsIface     bool // contract on an interface method (no body to verify)
 	Logged      bool   // maintain call-log ghost variables calls_<Name>, arg_<Name>_<param>
 	LogName     string
@@ -134,7 +136,7 @@ type ContractFile struct {
 var clauseKeywords = map[string]bool{
 	"func": true, "lemma": true, "extern": true, "opaque": true, "pure": true, "props": true, "arith": true,
 	"requires": true, "ensures": true, "modifies": true, "loop": true, "inline": true, "trusted": true,
-	"nosafe": true, "effectfree": true, "uses": true, "ghost": true, "assigns": true, "logged": true, "callsite": true, "where": true, "global": true, "recvfrom": true, "sets": true, "coretypes": true, "appends": true, "splitreturns": true,
+	"nosafe": true, "effectfree": true, "uses": true, "ghost": true, "assigns": true, "logged": true, "callsite": true, "where": true, "global": true, "recvfrom": true, "sets": true, "coretypes": true, "appends": true, "splitreturns": true, "purecallback": true, "bounded": true,
 }
 
 var labelRe = regexp.MustCompile(`^([A-Za-z_][A-Za-z0-9_]*)\s*:\s*([^:=].*)$`)
@@ -427,6 +429,29 @@ func ParseContractFile(path, pkgPath string) (*ContractFile, error) {
 				cur.CoreTypes = true
 			case "splitreturns":
 				cur.SplitReturns = true
+			case "bounded":
+				// bounded <ensures label>: <bound>   - the clause is checked only for inputs within the bound
+				lab, body, ok := strings.Cut(rest, ":")
+				if !ok {
+					addErr(rc.line, "bounded <ensures label>: <bound expression>")
+					continue
+				}
+				e, err := ParseSpec(strings.TrimSpace(body))
+				if err != nil {
+					addErr(rc.line, "%v", err)
+					continue
+				}
+				if cur.Bounded == nil {
+					cur.Bounded = map[string]Clause{}
+				}
+				cur.Bounded[strings.TrimSpace(lab)] = Clause{Label: strings.TrimSpace(lab), E: e, Src: strings.TrimSpace(body)}
+			case "purecallback":
+				if cur.PureCallbacks == nil {
+					cur.PureCallbacks = map[string]bool{}
+				}
+				for _, n := range strings.FieldsFunc(rest, func(r rune) bool { return r == ',' || r == ' ' }) {
+					cur.PureCallbacks[n] = true
+				}
 			case "appends":
 				pn, body, ok := strings.Cut(rest, " ")
 				if !ok {
